@@ -146,6 +146,9 @@ pub struct Args {
     pub jobs: usize,
     /// run exactly this case index in-process (replay of a worker crash)
     pub only_case: Option<usize>,
+    /// worker continuation after a re-exec (memory cap): first case index still to run, part number
+    pub resume_from: usize,
+    pub part: usize,
     pub rest: Vec<String>,
 }
 impl Args {
@@ -155,7 +158,7 @@ impl Args {
 }
 
 pub fn parse_args() -> Args {
-    let mut a = Args { subcheck: String::new(), tier: "quick".into(), seed: 0, out: None, worker: None, replay: None, jobs: 0, only_case: None, rest: vec![] };
+    let mut a = Args { subcheck: String::new(), tier: "quick".into(), seed: 0, out: None, worker: None, replay: None, jobs: 0, only_case: None, resume_from: 0, part: 0, rest: vec![] };
     let mut it = std::env::args().skip(1);
     while let Some(x) = it.next() {
         match x.as_str() {
@@ -165,6 +168,8 @@ pub fn parse_args() -> Args {
             "--replay" => a.replay = it.next(),
             "--jobs" => a.jobs = it.next().unwrap().parse().unwrap(),
             "--only-case" => a.only_case = it.next().and_then(|x| x.parse().ok()),
+            "--resume-from" => a.resume_from = it.next().and_then(|x| x.parse().ok()).unwrap_or(0),
+            "--part" => a.part = it.next().and_then(|x| x.parse().ok()).unwrap_or(0),
             "--worker" => {
                 let w = it.next().unwrap();
                 let (k, n) = w.split_once('/').unwrap();
@@ -195,14 +200,39 @@ pub fn run_cases(args: &Args, mut res: SubResult, total: usize, timeout: Duratio
     if let Some((k, n)) = args.worker {
         pin_to_cpu(k);
         let marker = format!("{}.cur", args.out.as_deref().unwrap_or("worker"));
-        for idx in (0..total).filter(|i| i % n == k) {
+        let out = args.out.as_deref().expect("--out required for workers");
+        let cap = worker_rss_cap();
+        let mine: Vec<usize> = (0..total).filter(|i| i % n == k && *i >= args.resume_from).collect();
+        for (pos, idx) in mine.iter().copied().enumerate() {
             res.cur_rank = idx as u64;
             // which case is running, should the subject take the whole process down (UB, abort, stack overflow)
             let _ = std::fs::write(&marker, idx.to_string());
             case(idx, &mut res);
+            // Memory cap: a worker runs up to millions of executions of the real code in one process;
+            // what those leave behind (leaked `'static` caches, retired threads, deduplication tables) adds
+            // up -- 16 workers of 4 GB each once exhausted the machine and the OOM killer's victims were
+            // read as results.  Above the cap the worker writes what it has as a *part* and continues in a
+            // fresh process image from the next case; the parent merges all parts.
+            if pos + 1 < mine.len() && current_rss() > cap {
+                res.wall_s = t0.elapsed().as_secs_f64();
+                res.write(&format!("{out}.part{}", args.part));
+                use std::os::unix::process::CommandExt;
+                let mut argv: Vec<String> = vec![];
+                let mut it = std::env::args().skip(1);
+                while let Some(a) = it.next() {
+                    if a == "--resume-from" || a == "--part" {
+                        it.next();
+                        continue;
+                    }
+                    argv.push(a);
+                }
+                let e = std::process::Command::new(std::env::current_exe().unwrap()).args(&argv).arg("--resume-from").arg((idx + 1).to_string()).arg("--part").arg((args.part + 1).to_string()).exec();
+                eprintln!("MACHINERY: re-exec of a worker failed: {e}");
+                std::process::exit(2);
+            }
         }
         res.wall_s = t0.elapsed().as_secs_f64();
-        res.write(args.out.as_deref().expect("--out required for workers"));
+        res.write(out);
         std::process::exit(0);
     }
     let n = args.jobs.min(total).max(1);
@@ -216,6 +246,7 @@ pub fn run_cases(args: &Args, mut res: SubResult, total: usize, timeout: Duratio
     }
     let exe = std::env::current_exe().unwrap();
     let dir = std::env::temp_dir().join(format!("vmc-{}-{}", std::process::id(), args.subcheck));
+    let _ = std::fs::remove_dir_all(&dir); // left over by an earlier process with the same id
     let _ = std::fs::create_dir_all(&dir);
     let mut kids = vec![];
     for k in 0..n {
@@ -279,6 +310,12 @@ pub fn run_cases(args: &Args, mut res: SubResult, total: usize, timeout: Duratio
                 eprintln!("MACHINERY: a worker of {} died of resource exhaustion in the harness process", args.subcheck);
                 std::process::exit(2);
             }
+            if status.signal() == Some(libc::SIGKILL) {
+                // nothing in the process sends itself SIGKILL: the kernel's out-of-memory killer or an outer
+                // time limit did.  That says nothing about the code under test.
+                eprintln!("MACHINERY: a worker of {} was killed from outside (SIGKILL: out-of-memory killer or an outer limit)", args.subcheck);
+                std::process::exit(2);
+            }
             if let Some(sig) = status.signal() {
                 // the subject killed the worker (segfault / abort): that is an observation about the
                 // code under test, reported as a violation of the case that was running; the cases
@@ -303,10 +340,30 @@ pub fn run_cases(args: &Args, mut res: SubResult, total: usize, timeout: Duratio
         });
         let part: SubResult = serde_json::from_slice(&txt).unwrap();
         res.merge(part);
+        // parts written by a worker that continued in a fresh process image (memory cap)
+        for j in 0.. {
+            let Ok(txt) = std::fs::read(format!("{}.part{j}", out.display())) else { break };
+            let Ok(part) = serde_json::from_slice::<SubResult>(&txt) else {
+                eprintln!("MACHINERY: unreadable worker part {j} of {}", out.display());
+                std::process::exit(2)
+            };
+            res.merge(part);
+        }
     }
     let _ = std::fs::remove_dir_all(&dir);
     res.wall_s = t0.elapsed().as_secs_f64();
     res
+}
+
+/// resident set size of this process in bytes (0 if unknown)
+pub fn current_rss() -> u64 {
+    let Ok(t) = std::fs::read_to_string("/proc/self/statm") else { return 0 };
+    let pages: u64 = t.split_whitespace().nth(1).and_then(|x| x.parse().ok()).unwrap_or(0);
+    pages * (unsafe { libc::sysconf(libc::_SC_PAGESIZE) }.max(1) as u64)
+}
+/// memory cap per worker process (`VERIF_WORKER_RSS_MB`, default 1024 MiB), see `run_cases`
+pub fn worker_rss_cap() -> u64 {
+    std::env::var("VERIF_WORKER_RSS_MB").ok().and_then(|s| s.parse::<u64>().ok()).unwrap_or(1024) * 1024 * 1024
 }
 
 /// CPU time (user + system, children included) consumed so far by process `pid`, from /proc.
